@@ -30,10 +30,14 @@ type c20Req struct {
 	fault   string // none factory filter1 filter2 send1 send3 read2 read9 read-late
 	e2e     int
 	queries int
+	// ctxEnded: the caller's context is already cancelled when the request starts (a client that went away). Whether a
+	// TCP request honours it is not this property's business (then it fails with the context's error); what it may not do
+	// is take the ended context for "the target does not support SACK" and answer with a SYN trace.
+	ctxEnded bool
 }
 
 func (r c20Req) String() string {
-	return fmt.Sprintf("method=%s capability=%s fault=%s queries=%d e2e=%d", r.method, r.cap, r.fault, r.queries, r.e2e)
+	return fmt.Sprintf("method=%s capability=%s fault=%s queries=%d e2e=%d ctxEnded=%v", r.method, r.cap, r.fault, r.queries, r.e2e, r.ctxEnded)
 }
 
 func checkC20() fw.Check {
@@ -84,6 +88,11 @@ func checkC20() fw.Check {
 					}
 				}
 			}
+			for _, m := range []string{"sack", "prefer_sack", "syn"} {
+				for _, cp := range []string{"sack-ok", "sack-ok-ts", "no-sackperm", "closed"} {
+					reqs = append(reqs, c20Req{method: m, cap: cp, fault: "none", e2e: 1, queries: 1, ctxEnded: true})
+				}
+			}
 			// a spelling variant of the protocol ("TCP"): whether it is accepted is C19's business; IF it is accepted, the
 			// method policy applies unchanged (end-to-end probes use SYN, ...)
 			for _, m := range []string{"sack", "prefer_sack", "syn"} {
@@ -113,7 +122,7 @@ func checkC20() fw.Check {
 				id := fmt.Sprintf("C20/%d/%s/%s/%s/e%d/q%d/m%d", i, rq.method, rq.cap, rq.fault, rq.e2e, rq.queries, rq.maxTTL)
 				cases = append(cases, fw.Case{ID: id, Bubble: true, Run: func(c *fw.Ctx) { runC20(c, id, rq) }})
 			}
-			return cases
+			return withKernelStage("C20", tier, cases)
 		},
 	}
 }
@@ -219,7 +228,17 @@ func runC20(c *fw.Ctx, id string, rq c20Req) {
 		}[rq.fault]
 		env.w.Faults[key] = f
 	}
-	out, rerr := env.run(context.Background())
+	ctx := context.Background()
+	if rq.ctxEnded {
+		cctx, cancel := context.WithCancel(ctx)
+		cancel()
+		ctx = cctx
+	}
+	out, rerr := env.run(ctx)
+	if rq.ctxEnded && rerr != nil && errors.Is(rerr, context.Canceled) {
+		c.Nontrivial(fmt.Sprintf("%s/%s/ctx-ended/honoured", rq.method, rq.cap))
+		return
+	}
 	// observations
 	env.w.Lock()
 	kinds := map[int]map[string]int{} // handle -> kind -> count
@@ -271,7 +290,7 @@ func runC20(c *fw.Ctx, id string, rq c20Req) {
 	}
 	env.monitors(id)
 	c.Count("requests", 1)
-	c.Nontrivial(fmt.Sprintf("%s/%s/%s/e2e%v/%s", rq.method, rq.cap, rq.fault, rq.e2e > 0, outcome))
+	c.Nontrivial(fmt.Sprintf("%s/%s/%s/e2e%v/%s/ctx%v", rq.method, rq.cap, rq.fault, rq.e2e > 0, outcome, rq.ctxEnded))
 	viol := func(sig, msg string) {
 		c.Violate("C20", sig+"/"+rq.method+"/"+rq.cap+"/"+rq.fault, id+": "+msg+" ["+rq.String()+"]", detail)
 	}
